@@ -2,6 +2,8 @@
 From Model Require Import Front.
 From Spec Require Import RegexSpec.
 From Proofs Require Import RegexTotal RegexRoundTrip.
+From Spec Require Sem.
+From Proofs Require ResolveShape UnrollSem.
 Local Open Scope N_scope.
 
 (* The regular expressions of the supported subset are the trees of Spec/RegexSpec.v: literal and
@@ -19,6 +21,22 @@ Theorem C14_regex_roundtrip : forall (d : rdis) (g : nat), wf_disj d [] ->
   parse_regexp (show_disj d) g = POk (EPrim (LSubExpr (fst (tr_disj d g))), snd (tr_disj d g)).
 Proof. exact regex_roundtrip_lemma. Qed.
 Print Assumptions C14_regex_roundtrip.
+
+(* What a quantifier means.  The generator does not emit x{m,n} as one loop: it lays out m copies of
+   x's pattern and then a loop of 0..n-m further iterations.  For every reference-free x, whatever
+   the generator emits for the quantified tree (at any offset, with any loop-id supply) has exactly
+   the outcomes of "between m and n repetitions of x's pattern", greedy or lazy - provided x's
+   pattern always consumes something (the property's proviso: repeated bodies cannot match the
+   empty string) and has a defined meaning. *)
+Theorem C14_quantifier_means_bounded_repetition :
+  forall text start defs mn mx fw body off g r g' off0 g0 c g0',
+  ResolveShape.plain_e body -> gvars g0 = gvars g ->
+  resolve_expr (ELoop mn mx fw [] body) off g = GOk (r, g') ->
+  resolve_expr body off0 g0 = GOk (c, g0') ->
+  UnrollSem.advances text start defs c -> UnrollSem.defined text start defs c -> (mx = -1 \/ Z.of_nat mn <= mx)%Z ->
+  forall s l, Sem.outs text start defs r s l <-> Sem.outs text start defs (XLoop 0 mn mx fw [] c) s l.
+Proof. exact ResolveShape.quantifier_meaning_lemma. Qed.
+Print Assumptions C14_quantifier_means_bounded_repetition.
 
 (* every other byte string between @/ and / gives a tree or an error, never a panic or a hang *)
 Theorem C14_regex_parser_total : forall re g, parse_regexp re g <> PCrash /\ parse_regexp re g <> PFuel.
